@@ -393,7 +393,7 @@ func mod1Scenario(m mod1Case) engine.Scenario {
 func mod1Scenarios(tier string) []engine.Scenario {
 	var scs []engine.Scenario
 	logNs := []int{6}
-	Ks := []int{12, 16, 25}
+	Ks := []int{12, 16} // K=25 and 40 (wide intervals, degrees > 200) are thorough-only
 	ratios := []int{4, 8}
 	invs := []int{0, 5, 7}
 	if tier == "thorough" {
